@@ -218,14 +218,17 @@ class Namespace(argparse.Namespace):
 
     def as_dict(self) -> Dict[str, Any]:
         """Converts the nested namespaces into nested dictionaries."""
+        def item_as_dict(item):
+            return item.as_dict() if isinstance(item, Namespace) else item
+
         dic = {}
         for key, val in vars(self).items():
             if isinstance(val, Namespace):
                 val = val.as_dict()
-            elif isinstance(val, dict) and val != {} and all(isinstance(v, Namespace) for v in val.values()):
-                val = {k: v.as_dict() for k, v in val.items()}
-            elif isinstance(val, list) and val != [] and all(isinstance(v, Namespace) for v in val):
-                val = [v.as_dict() for v in val]
+            elif isinstance(val, dict) and any(isinstance(v, Namespace) for v in val.values()):
+                val = {k: item_as_dict(v) for k, v in val.items()}
+            elif isinstance(val, (list, tuple)) and any(isinstance(v, Namespace) for v in val):
+                val = type(val)(item_as_dict(v) for v in val)
             dic[del_clash_mark(key)] = val
         return dic
 
